@@ -251,6 +251,11 @@ var c10TimeShapes = []string{
 	`{timeattr {time %D} weekday}`,
 	`{time %D "" utc}`,
 	`{sumi {time %D} 1}`,
+	// an explicit layout (%F: the layout of the run's date tokens, by name or spelled out): another branch of the helper
+	`{time %D %F}`,
+	`{buckettime %D hour %F}`,
+	`{timeformat {time %D %F} 2006-01-02T15}`,
+	`{time %D %F utc}`,
 }
 var c10DateExprs = []string{`{1}`, `{verb}`, `{coalesce {1} %C}`, `{coalesce {9} {1}}`, `{if {2} {1} %C}`, `{coalesce {path} %C}`}
 var c10DateConsts = []string{`01/02/2006`, `2006-01-02`, `"Jan 2 2006"`, `2006-01-02T15:04:05Z`, `02/01/2006`}
@@ -285,9 +290,11 @@ func init() {
 		if family == "range" && sc.Workers == 1 {
 			sc.Workers = 2 + t.W(3) // the pooled sub-expression contexts are the subject: share them
 		}
+		tpIso := false
 		if family == "timeparse" {
 			// date tokens of ONE layout per run (the helper caches the first layout it detects, by design)
 			iso := t.WBool(1, 2)
+			tpIso = iso
 			var burst []string
 			for k := 2 + t.W(3); k > 0; k-- {
 				if iso {
@@ -534,6 +541,11 @@ func init() {
 				d := c10DateExprs[t.W(len(c10DateExprs))]
 				d = strings.Replace(d, "%C", c10DateConsts[t.W(len(c10DateConsts))], 1)
 				tpl = strings.Replace(shape, "%D", d, 1)
+				if tpIso {
+					tpl = strings.Replace(tpl, "%F", "2006-01-02", 1)
+				} else {
+					tpl = strings.Replace(tpl, "%F", []string{"RFC3339", "2006-01-02T15:04:05Z07:00", "rfc3339"}[t.W(3)], 1)
+				}
 				refTpl = tpl
 				// what the date expression evaluates to when every group and key is empty
 				dateProbe = ""
